@@ -252,7 +252,8 @@ func runC13(o *hx.Out, r *hx.Rand, thorough bool) {
 	for _, c := range []struct {
 		u     string
 		https bool
-	}{{"http://example.test/", false}, {"https://example.test/", true}, {"http://example.test:8080/", false}} {
+	}{{"http://example.test/", false}, {"https://example.test/", true}, {"http://example.test:8080/", false},
+		{"http://[::1]:8080/", false}, {"https://[2001:db8::7]:8443/x", true}, {"http://[::1]/", false}, {"https://[2001:db8::7]/", true}, {"http://10.1.2.3:9/", false}} {
 		u, _ := url.Parse(c.u)
 		p := httpgrpc.VerifGetPeer(u, nil)
 		o.Case("default_port", fmt.Sprintf("CallCase \"getPeer\" %s false false None None true %s %s {| o_failed := false; o_requests := -1; o_handler_md := None; o_peer_addr := (Some %s); o_peer_auth := %s; o_handler_peer_auth := %s; o_handler_peer_addr_set := true |}",
